@@ -206,7 +206,9 @@ def run(chk):
                     okg = bool(inner) and all(isinstance(g2, tuple) and g2 and (
                         desc_contains(g2, lambda y: y[0] == "field" and y[2] == hbi and y[1][0] == "param") or
                         desc_contains(g2, lambda y: y[0] == "call" and y[1].endswith("Instant::elapsed")) or
-                        desc_contains(g2, lambda y: y[0] == "call" and core.re.search(r"mpsc::Receiver::<T>::(try_recv|recv|recv_timeout)$|Iterator>?::next$|HashMap::<K, V, S, A>::(get_mut|get)$", y[1]) is not None))
+                        desc_contains(g2, lambda y: y[0] == "call" and core.re.search(r"mpsc::Receiver::<T>::(try_recv|recv|recv_timeout)$|Iterator>?::next$|HashMap::<K, V, S, A>::(get_mut|get)$", y[1]) is not None)) and
+                        # ... and nothing about what the stream itself has just delivered
+                        not desc_contains(g2, lambda y: y[0] == "call" and core.re.search(r"recv_nonblocking$|WebsocketStream::recv$|message::Message::|frame::Frame::", y[1]) is not None)
                         for g2 in inner)
                 if not okg:
                     odd.append((lab, core.short(str(gdesc))[:70]))
